@@ -79,6 +79,11 @@ TARGETS = [
     # BitArray with its default big-endian order (`self.endian` is read from the class attribute; both call sites use it)
     ('cardutil/BitArray.py', 'BitArray.tolist', {}, ('list', 'bool'), {'readonly': True}),
     ('cardutil/BitArray.py', 'BitArray.fromlist', {'bytelist': ('list', 'bool')}, None),
+    # file inspection: the bitmap test (a loop with an early return over the bits of a BitArray) and ipm_info itself
+    # (the first read of the file object is the first bytes of its content; the result dict holds booleans and texts)
+    ('cardutil/mciipm.py', 'bitmap_check', {'bitmap': 'bytes'}, ('tuple', 'bool', 'str')),
+    ('cardutil/mciipm.py', 'ipm_info', {'input_data': 'infile', 'output': ('dict', 'str', 'infoval')},
+     ('dict', 'str', 'infoval')),
     # FRAGMENTS of functions whose other statements call the cipher library: the decimalisation at the end of
     # calculate_pvv (from the first assignment to values_pass1, with the ciphertext `ct` as parameter), and the
     # combination loop at the start of get_zone_master_key (up to the assignment to binary_key, returning p1)
@@ -132,6 +137,10 @@ def lean_type(t):
         return 'Py.DateTime'
     if t == 'pyval':
         return 'Rt.PyVal'
+    if t == 'infoval':
+        return 'Rt.InfoVal'
+    if t in ('infile', 'bitarray'):
+        return 'Bytes'
     if isinstance(t, tuple) and t[0] == 'list':
         return f'(List {lean_type(t[1])})'
     if isinstance(t, tuple) and t[0] == 'tuple':
@@ -161,6 +170,9 @@ def elem_type(t):
 
 def lean_lit_seq(values):
     return '[' + ', '.join(str(v) for v in values) + ']'
+
+
+ALL_KNOWN = {}        # every function translated so far in this run, by its TARGETS name (calls across modules)
 
 
 class Fn:
@@ -217,6 +229,13 @@ class Translator:
             return code
         if want == 'pyval' and typ in ('str', 'int', 'dec', 'dt'):
             return f'(Rt.PyVal.{typ} {code})'
+        if want == 'infoval' and typ in ('str', 'bool'):
+            return f'(Rt.InfoVal.{typ} {code})'
+        if want == 'str' and typ == 'none':
+            return '[]'              # None where a text is expected ("no reason"): the empty text
+        if isinstance(want, tuple) and isinstance(typ, tuple) and want[0] == typ[0] == 'tuple' and len(want) == len(typ) == 3 \
+                and code.startswith('(') and code.endswith(')') and typ[1] == want[1] and (typ[2], want[2]) == ('none', 'str'):
+            return code[:code.rindex(',')] + ', ([] : Text))'
         raise Untranslatable(f'cannot use {typ} as {want}')
 
     def const_int(self, node):
@@ -404,6 +423,19 @@ class Translator:
         if isinstance(node, ast.Compare):
             if len(node.ops) != 1:
                 raise Untranslatable('chained comparison')
+            rhs = node.comparators[0]
+            if isinstance(node.ops[0], (ast.In, ast.NotIn)) and isinstance(rhs, ast.Subscript) \
+                    and isinstance(rhs.slice, ast.Constant) and rhs.slice.value == 'bit_config' \
+                    and isinstance(rhs.value, ast.Attribute) and rhs.value.attr == 'config' \
+                    and isinstance(node.left, ast.Call) and isinstance(node.left.func, ast.Name) and node.left.func.id == 'str' \
+                    and len(node.left.args) == 1:
+                # str(n) in config.config['bit_config']: the keys are the decimal spellings of the configured element
+                # numbers (the table gen_tables.py read from /repo for this run)
+                nc, nt = self.expr(node.left.args[0], env)
+                if nt != 'int':
+                    raise Untranslatable('str() of a non-int as configuration key')
+                inner = f'(Gen.configuredBits.any (fun e => decide (((e : Nat) : Int) = {nc})))'
+                return inner if isinstance(node.ops[0], ast.In) else f'(!{inner})'
             lc, lt = self.expr(node.left, env)
             rc, rt = self.expr(node.comparators[0], env)
             if isinstance(node.ops[0], (ast.In, ast.NotIn)) and isinstance(node.comparators[0], (ast.Tuple, ast.List)) \
@@ -524,6 +556,23 @@ class Translator:
                 and isinstance(node.args[0], ast.Name) and env.get(node.args[0].id, (None, None))[1] == 'codec':
             c, t = self.expr(f.value, env)
             return self.hoist(f'({env[node.args[0].id][0]} {self.coerce(c, t, "str")})', 'bytes')
+        if isinstance(f, ast.Attribute) and f.attr == 'read' and len(node.args) == 1 and not node.keywords \
+                and isinstance(f.value, ast.Name) and env.get(f.value.id, (None, None))[1] == 'infile':
+            n = self.const_int(node.args[0])
+            if n is None or n <= 0:
+                raise Untranslatable('read() of the inspected file with a size that is not a positive literal')
+            return f'(Rt.slice {env[f.value.id][0]} none (some {self.int_lit(n)}))', 'bytes'
+        if isinstance(f, ast.Attribute) and f.attr == 'tolist' and not node.args and not node.keywords \
+                and isinstance(f.value, ast.Name) and env.get(f.value.id, (None, None))[1] == 'bitarray':
+            fn = ALL_KNOWN.get('BitArray.tolist')
+            if fn is None:
+                raise Untranslatable('BitArray.tolist is not translated')
+            return self.hoist(f'({fn.name} {env[f.value.id][0]})', ('list', 'bool'))
+        if isinstance(f, ast.Name) and f.id == 'enumerate' and len(node.args) == 1 and not node.keywords:
+            c, t = self.expr(node.args[0], env)
+            if not (isinstance(t, tuple) and t[0] == 'list'):
+                raise Untranslatable('enumerate of a non-list')
+            return f'(Rt.enumerate {c})', ('list', ('tuple', 'int', t[1]))
         if isinstance(f, ast.Attribute) and f.attr == 'decode' and len(node.args) == 1 and not node.keywords \
                 and isinstance(node.args[0], ast.Name) and env.get(node.args[0].id, (None, None))[1] == 'decoder':
             c, t = self.expr(f.value, env)
@@ -851,6 +900,8 @@ class Translator:
         kind, value = loop
         if kind == 'while':
             return f'.ok ({"true" if keep_going else "false"}, {value})'
+        if kind == 'forret':
+            return '.ok none'
         return f'.ok {value}'
 
     def stmts(self, stmts, env, ret, loop=None):
@@ -945,6 +996,40 @@ class Translator:
                         f'let self_in : Bytes := (Rt.readN self_in {nc}).2;\n  '
                         + self.stmts(rest, env2, ret, loop))
             return self.wrap(go)
+        if isinstance(s, ast.Assign) and len(s.targets) == 1 and isinstance(s.targets[0], ast.Name) \
+                and isinstance(s.value, ast.Call) and not s.value.args and not s.value.keywords \
+                and ((isinstance(s.value.func, ast.Attribute) and s.value.func.attr == 'BitArray')
+                     or (isinstance(s.value.func, ast.Name) and s.value.func.id == 'BitArray')):
+            # x = BitArray(): an object that holds bytes (big-endian, the class default); empty until frombytes()
+            env2 = dict(env)
+            env2[s.targets[0].id] = (s.targets[0].id, 'bitarray')
+            return f'let {s.targets[0].id} : Bytes := [];\n  ' + self.stmts(rest, env2, ret, loop)
+        if isinstance(s, ast.Expr) and isinstance(s.value, ast.Call) and isinstance(s.value.func, ast.Attribute) \
+                and s.value.func.attr == 'frombytes' and isinstance(s.value.func.value, ast.Name) \
+                and env.get(s.value.func.value.id, (None, None))[1] == 'bitarray' and len(s.value.args) == 1:
+            name = s.value.func.value.id
+
+            def go_fb():
+                c, t = self.expr(s.value.args[0], env)
+                if t not in ('bytes', 'asciibytes'):
+                    raise Untranslatable('frombytes of a non-bytes value')
+                return f'let {name} : Bytes := {c};\n  ' + self.stmts(rest, env, ret, loop)
+            return self.wrap(go_fb)
+        if isinstance(s, ast.Assign) and len(s.targets) == 1 and isinstance(s.targets[0], ast.Tuple) \
+                and isinstance(s.value, ast.Call) and len(s.targets[0].elts) == 2 \
+                and all(isinstance(t, ast.Name) for t in s.targets[0].elts):
+            # a, b = f(...): a call that returns a pair
+            a, b = (t.id for t in s.targets[0].elts)
+
+            def go_pair():
+                c, t = self.expr(s.value, env)
+                if not (isinstance(t, tuple) and t[0] == 'tuple' and len(t) == 3):
+                    raise Untranslatable('pair assignment from something that is not a pair')
+                env2 = dict(env)
+                env2[a], env2[b] = (a, t[1]), (b, t[2])
+                return (f'let {a} : {lean_type(t[1])} := ({c}).1;\n  let {b} : {lean_type(t[2])} := ({c}).2;\n  '
+                        + self.stmts(rest, env2, ret, loop))
+            return self.wrap(go_pair)
         if isinstance(s, ast.Assign) and len(s.targets) == 1 and isinstance(s.targets[0], ast.Name):
             name = s.targets[0].id
 
@@ -953,6 +1038,15 @@ class Translator:
                     if name not in self.hints:
                         raise Untranslatable(f'empty literal assigned to {name} without a type hint')
                     c, t = '[]', self.hints[name]
+                elif isinstance(s.value, ast.Dict) and name in self.hints and is_dict(self.hints[name]):
+                    # a dict literal for a variable with a declared value type: each value is brought to that type
+                    want = self.hints[name]
+                    items = []
+                    for k, v in zip(s.value.keys, s.value.values):
+                        kc, kt = self.expr(k, env)
+                        vc, vt = self.expr(v, env)
+                        items.append(f'({self.coerce(kc, kt, "str")}, {self.coerce(vc, vt, want[2])})')
+                    c, t = '[' + ', '.join(items) + ']', want
                 else:
                     c, t = self.expr(s.value, env)
                     if name in self.hints and is_dict(self.hints[name]) and is_dict(t):
@@ -991,6 +1085,11 @@ class Translator:
                 env2[name] = (name, t)
                 return f'let {name} : {lean_type(t)} := {c};\n  ' + self.stmts(rest, env2, ret, loop)
             return self.wrap(go)
+        if isinstance(s, ast.Return) and loop and loop[0] == 'forret':
+            def go_ret():
+                c, t = self.expr(s.value, env) if s.value is not None else ('()', 'none')
+                return f'.ok (some {self.coerce(c, t, ret)})'
+            return self.wrap(go_ret)
         if isinstance(s, ast.Return):
             if loop:
                 raise Untranslatable('return inside a loop')
@@ -1079,6 +1178,31 @@ class Translator:
                 raise NeedMonad()
             if loop:
                 raise Untranslatable('nested loop')
+            if isinstance(s, ast.For) and any(isinstance(n, ast.Return) for st in s.body for n in ast.walk(st)) \
+                    and not [n for n in dict.fromkeys(self.assigned(s.body)) if n in env]:
+                # a loop that changes nothing outside itself and may RETURN from the function: the state is "has it returned,
+                # and what" — later iterations are skipped, and the statements after the loop run only if it did not
+                def go_fr():
+                    ic, it = self.expr(s.iter, env)
+                    et = elem_type(it)
+                    env2 = dict(env)
+                    if isinstance(s.target, ast.Name):
+                        env2[s.target.id] = (s.target.id, et)
+                        binder, opener2 = f'({s.target.id} : {lean_type(et)})', ''
+                    elif isinstance(s.target, ast.Tuple) and isinstance(et, tuple) and et[0] == 'tuple' and len(et) == 3 \
+                            and len(s.target.elts) == 2 and all(isinstance(e, ast.Name) for e in s.target.elts):
+                        a, b = s.target.elts[0].id, s.target.elts[1].id
+                        env2[a], env2[b] = (a, et[1]), (b, et[2])
+                        binder, opener2 = f'(p : {lean_type(et)})', f'let {a} := p.1; let {b} := p.2; '
+                    else:
+                        raise Untranslatable('loop target')
+                    body = self.stmts(s.body, env2, ret, loop=('forret', None))
+                    after = self.stmts(rest, env, ret, None)
+                    rt = lean_type(ret)
+                    return (f'Outcome.bind (Rt.forO (fun (st : Option {rt}) {binder} => {opener2}\n'
+                            f'    match st with\n    | some r => .ok (some r)\n    | none =>\n    ({body}))\n'
+                            f'    {ic} none) (fun st =>\n  match st with\n  | some r => .ok r\n  | none =>\n  ({after}))')
+                return self.wrap(go_fr)
             names, types, tup, value, proj = self.state_of(s.body, env)
             opener = ''.join(f'let {n} := {path}; ' for n, path in proj)
             if isinstance(s, ast.While):
@@ -1320,6 +1444,7 @@ def translate_all(repo=REPO):
             known = known_by_module.setdefault(path, {})
             text, fn = translate_function(mod, fdefs[0], ptypes, ret, known, cls, opts)
             known[name] = fn
+            ALL_KNOWN[name] = fn
             what = f' (fragment {opts["fragment"]})' if 'fragment' in opts else ''
             out.append(f'/-- `{path}: {name}`{what} -/')
             out.append(text)
